@@ -112,6 +112,18 @@ func (rs *raceScenario) body(x *Exec) {
 		})
 	case "saver":
 		verifrt.GoNamed("saver", func() { vi.Save() })
+	case "second-instance":
+		// another emulator in the same process, with its own connections coming, working and going
+		verifrt.GoNamed("second-instance", func() {
+			vi2 := redisemu.VNew("")
+			c1, c2 := vi2.NewClient(), vi2.NewClient()
+			c1.Do("SET", "ks", "other")
+			c2.Do("CLIENT", "LIST")
+			c2.Do("RPUSH", "kl", "o")
+			c1.Unregister()
+			c2.Do("CLIENT", "SETNAME", "second")
+			c2.Unregister()
+		})
 	case "wire", "wire-kill", "wire-close":
 		// a connection of the socket kind (clientCxn state machine) next to the in-process ones
 		srv, cli := vnet.Pipe("127.0.0.1:6379", "127.0.0.1:40009")
@@ -163,9 +175,12 @@ func raceScenarios(tier string) []*Scenario {
 		}
 	}
 	// special bodies against every template
-	for _, sp := range []string{"connect", "disconnect", "connect-disconnect", "saver"} {
+	for _, sp := range []string{"connect", "disconnect", "connect-disconnect", "saver", "second-instance"} {
 		for i, t := range raceTemplates {
-			if tier != "thorough" && sp != "saver" && i%3 != 0 {
+			if tier != "thorough" && sp == "second-instance" && i%9 != 0 && t[0] != "CLIENT" && t[0] != "INFO" && t[0] != "HELLO" {
+				continue
+			}
+			if tier != "thorough" && sp != "saver" && sp != "second-instance" && i%3 != 0 {
 				continue
 			}
 			add(&raceScenario{name: sp + "/" + label(t), threads: [][][]string{{t}}, special: sp})
